@@ -126,6 +126,12 @@ def replay(step, verbose=True):
         r = ins[0].conj_trans(); ref = refs[0].conj().T
     elif op in ("apply", "opop", "dmapply_l", "dmapply_r"):
         r = ins[0].apply(ins[1]); ref = refs[0] @ refs[1]
+    elif op == "dm":
+        r = MpDm.from_mps(ins[0]); ref = np.diag(refs[0])
+        if ins[0].is_complex and not (r.is_complex and all(np.iscomplexobj(np.asarray(mt.array)) for mt in r)):
+            if verbose:
+                print("MpDm.from_mps of a complex state has dtype", r.dtype, "/ tensor dtype", np.asarray(r[0].array).dtype)
+            return 1
     elif op == "move":
         ins[0].move_qnidx(step["dst"]); r = ins[0]; ref = refs[0]
     elif op == "distance":
